@@ -558,6 +558,56 @@ fn broken_body_cases(fx: &mut Fixture, cov: &mut Cov) -> Option<Found> {
                 if changed {
                     return Some(found("C15", format!("{desc} was refused ({}) but stored state changed: {diff}", resp.status), json!({"origin": "broken-body", "case": name})));
                 }
+                // the next uploads on the same route (same worker): an empty body is still refused and
+                // changes nothing, a legal body is accepted and stored as sent
+                let empty = HttpReq::new("POST", &path).header("X-Client-Id", &cid.to_string()).header("Content-Type", ct);
+                let r2 = fx.subj.http(&empty);
+                let after2 = fx.dump();
+                cov.evaluations += 1;
+                cov.hit(format!("after-broken-body:{:?}:empty-body:status={}", route, r2.status));
+                if !(400..500).contains(&r2.status) || fx.last_dump.as_ref().map(|b| *b != after2).unwrap_or(false) {
+                    return Some(found("C15", format!("an empty-bodied POST {path} right after {desc} was answered {} (stored state changed: {})", r2.status, fx.last_dump.as_ref().map(|b| b.diff(&after2)).unwrap_or_default()), json!({"origin": "broken-body", "case": name})));
+                }
+                if !client_new {
+                    // (a snapshot is only stored for a version newer than the snapshot's: move on first)
+                    if route == Route::AddSnapshot {
+                        let l0 = *fx.chains[c].last().unwrap();
+                        let r = fx.subj.http(&HttpReq::new("POST", &format!("/v1/client/add-version/{l0}")).header("X-Client-Id", &cid.to_string()).header("Content-Type", CT_HISTORY).body(b"one more version".to_vec()));
+                        match r.header("X-Version-Id").and_then(|s| Uuid::parse_str(s).ok()) {
+                            Some(v) if r.status == 200 => {
+                                fx.chains[c].push(v);
+                                fx.ids.push(v);
+                            }
+                            _ => return Some(found("C15", format!("a legal add-version right after {desc} was answered {}", r.describe()), json!({"origin": "broken-body", "case": name}))),
+                        }
+                    }
+                    let latest = *fx.chains[c].last().unwrap();
+                    let body = format!("sent-whole-after-{name}").into_bytes();
+                    let p3 = match route {
+                        Route::AddVersion => format!("/v1/client/add-version/{latest}"),
+                        _ => format!("/v1/client/add-snapshot/{latest}"),
+                    };
+                    let r3 = fx.subj.http(&HttpReq::new("POST", &p3).header("X-Client-Id", &cid.to_string()).header("Content-Type", ct).body(body.clone()));
+                    cov.evaluations += 1;
+                    cov.hit(format!("after-broken-body:{:?}:legal-body:status={}", route, r3.status));
+                    if r3.status != 200 {
+                        return Some(found("C15", format!("a legal POST {p3} ({} bytes) right after {desc} was answered {}", body.len(), r3.describe()), json!({"origin": "broken-body", "case": name})));
+                    }
+                    let back = match route {
+                        Route::AddVersion => fx.subj.http(&HttpReq::new("GET", &format!("/v1/client/get-child-version/{latest}")).header("X-Client-Id", &cid.to_string())),
+                        _ => fx.subj.http(&HttpReq::new("GET", "/v1/client/snapshot").header("X-Client-Id", &cid.to_string())),
+                    };
+                    if back.status != 200 || back.body != body {
+                        return Some(found("C15", format!("a legal POST {p3} ({} bytes) right after {desc} was accepted, but what is stored for it is served as {} with {} bytes (first difference at {:?})", body.len(), back.status, back.body.len(), crate::ops::first_diff(&back.body, &body)), json!({"origin": "broken-body", "case": name})));
+                    }
+                    if route == Route::AddVersion {
+                        if let Some(v) = r3.header("X-Version-Id").and_then(|s| Uuid::parse_str(s).ok()) {
+                            fx.chains[c].push(v);
+                            fx.ids.push(v);
+                        }
+                    }
+                    fx.last_dump = Some(fx.dump());
+                }
             }
         }
     }
@@ -932,7 +982,7 @@ pub fn finalize_grammar(prop: &str, tier: &str, out: ShardOut, is_replay: bool) 
         "statuses_observed": statuses.iter().cloned().collect::<Vec<_>>(),
         "counters": cov.counters,
         "situations_top": top.iter().take(50).map(|(k, v)| json!({"situation": k, "n": v})).collect::<Vec<_>>(),
-        "process_level_situations": cov.situations.iter().filter(|(k, _)| k.starts_with("memory-limited-executable|") || k.starts_with("stalled-oversize|") || k.starts_with("slow-storage|") || k.starts_with("conditional|")).map(|(k, v)| json!({"situation": k, "n": v})).collect::<Vec<_>>(),
+        "process_level_situations": cov.situations.iter().filter(|(k, _)| k.starts_with("memory-limited-executable|") || k.starts_with("stalled-oversize|") || k.starts_with("slow-storage|") || k.starts_with("conditional|") || k.starts_with("announced-")).map(|(k, v)| json!({"situation": k, "n": v})).collect::<Vec<_>>(),
     });
     let mut required: Vec<&str> = vec!["status=200", "status=400", "status=404"];
     if prop == "C15" {
@@ -1468,6 +1518,9 @@ fn socket_sample(prop: &str, seed: u64, n: usize, grams: &[Gram], cov: &mut Cov,
     if let Some(f) = many_in_flight(prop, &srv.addr, seed, cov, "an in-process HttpServer") {
         return Some(f);
     }
+    if let Some(f) = announced_oversize(prop, &srv.addr, cov, "an in-process HttpServer") {
+        return Some(f);
+    }
     if prop == "C15" {
         // an upload declared one byte above the limit that goes silent for 10.5 s after its first
         // kilobyte and then sends the rest: refused (or cut off), never accepted, nothing stored
@@ -1592,6 +1645,63 @@ pub fn conditional_download_part(prop: &str, seed: u64, cov: &mut Cov) -> Option
                         }
                     }
                 }
+            }
+        }
+    }
+    None
+}
+
+/// Uploads that announce more than the limit in `Content-Length` and send only the beginning of the
+/// body (or nothing), then wait. A server may refuse from the head alone or wait for the body; an
+/// answer, if one arrives, is a 4xx (C15) that forbids caching (C20). Exactly the limit announced
+/// and one kilobyte sent is an upload in progress: no final answer is owed yet, and a refusal of it
+/// would be wrong (C15).
+fn announced_oversize(prop: &str, addr: &str, cov: &mut Cov, label: &str) -> Option<Found> {
+    use std::io::{Read, Write};
+    use std::time::Duration;
+    let c = Uuid::new_v4();
+    for route in ["add-version", "add-snapshot"] {
+        let ct = if route == "add-version" { CT_HISTORY } else { CT_SNAPSHOT };
+        for (announced, sent_bytes) in [(LIMIT as u64 + 1, 0usize), (LIMIT as u64 + 1, 1024), (3_000_000_000u64, 0), (u64::MAX / 2, 16), (LIMIT as u64, 1024)] {
+            let Ok(mut s) = std::net::TcpStream::connect(addr) else { continue };
+            let _ = s.set_read_timeout(Some(Duration::from_millis(400)));
+            let _ = s.set_write_timeout(Some(Duration::from_secs(5)));
+            let head = format!("POST /v1/client/{route}/{} HTTP/1.1\r\nHost: x\r\nX-Client-Id: {c}\r\nContent-Type: {ct}\r\nContent-Length: {announced}\r\n\r\n", Uuid::nil());
+            if s.write_all(head.as_bytes()).is_err() {
+                continue;
+            }
+            let _ = s.write_all(&vec![0x41u8; sent_bytes]);
+            let mut buf = vec![];
+            let mut tmp = [0u8; 4096];
+            loop {
+                match s.read(&mut tmp) {
+                    Ok(0) | Err(_) => break,
+                    Ok(n) => {
+                        buf.extend_from_slice(&tmp[..n]);
+                        if buf.windows(4).any(|w| w == b"\r\n\r\n") {
+                            break;
+                        }
+                    }
+                }
+            }
+            cov.evaluations += 1;
+            let text = String::from_utf8_lossy(&buf).to_string();
+            let status: Option<u16> = if text.starts_with("HTTP/1.") { text.get(9..12).and_then(|x| x.parse().ok()) } else { None };
+            let over = announced > LIMIT as u64;
+            cov.hit(format!("announced-{}|{route}|sent={sent_bytes}|answer={}", if over { "oversize" } else { "limit" }, status.map(|x| x.to_string()).unwrap_or_else(|| "none-yet".into())));
+            let Some(st) = status else { continue };
+            let headers = text.split("\r\n\r\n").next().unwrap_or("").to_ascii_lowercase();
+            let ctx = format!("[{label}] a {route} upload announcing Content-Length {announced} of which {sent_bytes} bytes were sent was answered `{}`", text.lines().next().unwrap_or(""));
+            let rep = json!({"origin": "announced-oversize", "case": 0});
+            if prop == "C20" {
+                let cc = headers.lines().find(|l| l.starts_with("cache-control:")).unwrap_or("");
+                if !cc.contains("no-store") {
+                    return Some(found(prop, format!("{ctx}: the response does not forbid caching (headers: {})", headers.replace("\r\n", "; ")), rep));
+                }
+            } else if st >= 500 || (over && !(400..500).contains(&st)) {
+                return Some(found(prop, format!("{ctx}: not a 4xx"), rep));
+            } else if !over && (400..500).contains(&st) {
+                return Some(found(prop, format!("{ctx}: a body of exactly the limit is legal, and it was still being sent"), rep));
             }
         }
     }
@@ -1821,6 +1931,9 @@ fn binary_sample(prop: &str, seed: u64, n: usize, grams: &[Gram], cov: &mut Cov,
         return Some(found(prop, "the real executable (RUST_LOG=debug) exited while answering grammar requests".into(), json!({"origin": "executable", "case": 50_000_000})));
     }
     if let Some(f) = many_in_flight(prop, &addr, seed, cov, "the real executable") {
+        return Some(f);
+    }
+    if let Some(f) = announced_oversize(prop, &addr, cov, "the real executable") {
         return Some(f);
     }
     if prop == "C20" {
